@@ -4,6 +4,10 @@
                                                        missing files ignored; slice defaults afterwards; GoTool from GoRoot)
      gcfg's `set`                                     (scalar: overwrite; unnamed slice: append; blank: reset / true / error)
      ApplyOverrides / applyOverrideOnSectionField     (-o: scalar set, slice := strings.Split(value, ","))
+     setBuildPath                                     (build.path: a COMPUTED default - $PATH of the caller when PATH is listed
+                                                       in build.passenv / build.passunsafeenv, else DefaultPath - installed by
+                                                       setDefault, i.e. only when the files leave build.path empty)
+     if !config.Cpp.Coverage { append "cc" }          (test.disablecoverage gets an entry appended when cpp.coverage is false)
    No proofs here. *)
 From PlzV Require Import Base.Harness.
 
@@ -137,10 +141,27 @@ Fixpoint assoc {A} (o : opt) (l : list (opt * A)) : option A :=
   | (k, v) :: r => if opt_eqb o k then Some v else assoc o r
   end.
 
+(* A computed default (setBuildPath): the value depends on what the files left in other (repeated) options and on
+   the environment of the caller:
+     pathVal := fallback
+     for every (trigger option, element): if the element is in the option's list: pathVal = strings.Split(os.Getenv(var), sep)
+     setDefault(&target, pathVal...) *)
+Record cdefault := {
+  cd_triggers : list (opt * str);  (* (build.passunsafeenv, "PATH"); (build.passenv, "PATH") *)
+  cd_var : str;                    (* "PATH" *)
+  cd_sep : N;                      (* ':' *)
+  cd_fallback : list str           (* DefaultPath *)
+}.
+
+(* Everything besides the files and -o that determines a value: the default tables written in config.go and the
+   environment of the caller as far as a computed default reads it. *)
 Record schema := {
   init : list (opt * list str);    (* DefaultConfiguration(): values present before any file is read *)
   late : list (opt * list str);    (* setDefault(&field, ...) after all files: used when len(field) == 0 *)
-  derive : option (opt * opt)      (* if config.Go.GoRoot != "" { config.Go.GoTool = Join(GoRoot, "bin", "go") } *)
+  derive : option (opt * opt);     (* if config.Go.GoRoot != "" { config.Go.GoTool = Join(GoRoot, "bin", "go") } *)
+  computed : list (opt * cdefault);(* setBuildPath(&field, triggers...) after all files: used when len(field) == 0 *)
+  getenv : str -> str;             (* os.Getenv *)
+  appended : option (opt * opt * str)  (* if !config.Cpp.Coverage { Test.DisableCoverage = append(Test.DisableCoverage, "cc") } *)
 }.
 
 (* Go zero value: "" for a single-valued option, nil for a slice *)
@@ -157,6 +178,23 @@ Definition apply_late (sch : schema) (c : cfg) : cfg :=
            | None => c o
            end.
 
+Definition mem (v : str) (l : list str) : bool := existsb (str_eqb v) l.
+
+(* does some trigger option list its trigger element, in the state `look`? *)
+Definition triggered (look : cfg) (cd : cdefault) : bool :=
+  existsb (fun t => mem (snd t) (look (fst t))) (cd_triggers cd).
+
+Definition computed_value (sch : schema) (look : cfg) (cd : cdefault) : list str :=
+  if triggered look cd then split_on (cd_sep cd) (getenv sch (cd_var cd)) else cd_fallback cd.
+
+(* setBuildPath reads the trigger options as the files left them (`look`; their own setDefault calls come later and
+   install empty lists) and goes through setDefault: the target is only written when it is still empty. *)
+Definition apply_computed (sch : schema) (look c : cfg) : cfg :=
+  fun o => match assoc o (computed sch) with
+           | Some cd => if is_nil (c o) then computed_value sch look cd else c o
+           | None => c o
+           end.
+
 Definition derived_value (v : list str) : list str :=
   match v with [r] => [r ++ s "/bin/go"] | _ => v end.
 
@@ -167,6 +205,15 @@ Definition apply_derive (sch : schema) (c : cfg) : cfg :=
       | [[]] => c
       | v => upd c dst (derived_value v)
       end
+  | None => c
+  end.
+
+Definition is_false (v : list str) : bool :=
+  match v with [x] => str_eqb x (s "false") | _ => false end.
+
+Definition apply_append (sch : schema) (c : cfg) : cfg :=
+  match appended sch with
+  | Some (cond, dst, v) => if is_false (c cond) then upd c dst (c dst ++ [v]) else c
   | None => c
   end.
 
@@ -184,7 +231,8 @@ Definition apply_override (c : cfg) (ov : override) : cfg :=
 Definition read_config (sch : schema) (fs : fsys) (order : list str) : option cfg :=
   let srcs := sources fs order in
   if forallb (forallb assign_ok) srcs
-  then Some (apply_derive sch (apply_late sch (fold_left apply_file srcs (init_cfg sch))))
+  then let raw := fold_left apply_file srcs (init_cfg sch) in
+       Some (apply_append sch (apply_derive sch (apply_computed sch raw (apply_late sch raw))))
   else None.
 
 (* ReadConfigFiles(fs, filenames, profiles) then ApplyOverrides(ovs) *)
@@ -199,7 +247,14 @@ Definition effective (sch : schema) (fs : fsys) (filenames profiles : list str) 
 Definition o_gotool := Single SStr (s "go.gotool").
 Definition o_goroot := Single SStr (s "go.goroot").
 
-Definition real_schema : schema := {|
+Definition o_path := Multi (s "build.path").
+Definition o_passenv := Multi (s "build.passenv").
+Definition o_passunsafeenv := Multi (s "build.passunsafeenv").
+Definition o_cppcov := Single SBool (s "cpp.coverage").
+Definition o_discov := Multi (s "test.disablecoverage").
+
+(* path: the value of $PATH in the environment of the caller *)
+Definition real_schema_at (path : str) : schema := {|
   init := [ (Single SStr (s "build.config"), [s "opt"]);
             (Single SStr (s "build.nonce"), [s "1402"]);
             (Single SStr (s "please.downloadlocation"), [s "https://get.please.build"]);
@@ -210,17 +265,26 @@ Definition real_schema : schema := {|
             (Single SStr (s "display.maxworkers"), [s "40"]);
             (Single SStr (s "build.timeout"), [s "10m0s"]);
             (o_gotool, [s "go"]);
+            (o_cppcov, [s "true"]);
             (Multi (s "java.defaultmavenrepo"), [s "https://repo1.maven.org/maven2"; s "https://jcenter.bintray.com/"]) ];
   late := [ (Multi (s "please.pluginrepo"),
                [s "https://github.com/{owner}/{plugin}/archive/{revision}.zip";
                 s "https://github.com/{owner}/{plugin}-rules/archive/{revision}.zip"]);
             (Multi (s "parse.buildfilename"), [s "BUILD"; s "BUILD.plz"]);
-            (Multi (s "build.path"), [s "/usr/local/bin"; s "/usr/bin"; s "/bin"]);
-            (Multi (s "build.passenv"), []);
+            (o_passunsafeenv, []);
+            (o_passenv, []);
             (Multi (s "build.hashcheckers"), [s "sha1"; s "sha256"; s "blake3"]);
             (Multi (s "parse.builddefsdir"), [s "build_defs"]) ];
-  derive := Some (o_goroot, o_gotool)
+  derive := Some (o_goroot, o_gotool);
+  computed := [ (o_path, {| cd_triggers := [(o_passunsafeenv, s "PATH"); (o_passenv, s "PATH")];
+                            cd_var := s "PATH"; cd_sep := 58;
+                            cd_fallback := [s "/usr/local/bin"; s "/usr/bin"; s "/bin"] |}) ];
+  getenv := fun v => if str_eqb v (s "PATH") then path else [];
+  appended := Some (o_cppcov, o_discov, s "cc")
 |}.
+
+(* the schema used by the fixed witnesses and examples *)
+Definition real_schema : schema := real_schema_at (s "/caller/bin:/usr/bin").
 
 (* The options the harness reads back after every run, in its order; cases name them by index. *)
 Definition sampled : list opt :=
@@ -231,7 +295,8 @@ Definition sampled : list opt :=
     o_goroot; o_gotool;
     Multi (s "parse.buildfilename"); Multi (s "parse.blacklistdirs"); Multi (s "parse.builddefsdir");
     Multi (s "build.path"); Multi (s "build.passenv"); Multi (s "build.hashcheckers"); Multi (s "please.pluginrepo");
-    Multi (s "parse.preloadsubincludes"); Multi (s "java.defaultmavenrepo") ].
+    Multi (s "parse.preloadsubincludes"); Multi (s "java.defaultmavenrepo");
+    o_passunsafeenv; o_cppcov; o_discov ].
 
 Definition O (i : nat) : opt := nth i sampled (Multi []).
 
@@ -244,7 +309,8 @@ Definition filenames_of (a : files_arg) : list str :=
   match a with Default e => default_files e | Explicit l => l end.
 
 Inductive case :=
-| CRead (files : files_arg) (profiles : list str) (fs : fsys) (ovs : list override)
+| CRead (path : str)                                  (* $PATH of the caller *)
+        (files : files_arg) (profiles : list str) (fs : fsys) (ovs : list override)
         (opens : list str)                            (* observed: names passed to fs.Open, in order *)
         (result : option (list (list str))).          (* observed: None = error, else the values of `sampled` *)
 
@@ -260,9 +326,9 @@ Fixpoint prefix_eqb (a b : list str) : bool :=
 
 Definition check (c : case) : bool :=
   match c with
-  | CRead files profiles fs ovs opens result =>
+  | CRead path files profiles fs ovs opens result =>
       let names := filenames_of files in
-      match effective real_schema fs names profiles ovs, result with
+      match effective (real_schema_at path) fs names profiles ovs, result with
       | Some m, Some obs =>
           list_eqb str_eqb (read_order names profiles) opens
           && list_eqb vals_eqb (map m sampled) obs
